@@ -173,12 +173,15 @@ pub fn run_check(ctx: &Ctx) -> i32 {
                         }
                         // a bail-out handler that appends an empty string (and then its marker)
                         variants.push(Cfg { fail_at: Some(kf), graceful_handler: true, bail_out_handlers: 2, bail_out_payload: Some((String::new(), kf % 2 == 0)), ..conf.cfg.clone() });
+                        variants.push(Cfg { fail_at: Some(kf), graceful_handler: false, graceful_mem: true, bail_out_handlers: 1, ..conf.cfg.clone() });
                     }
                     for &m in mems {
                         for g in [false, true] {
                             variants.push(Cfg { mem: Some((m, 0)), graceful_mem: g, ..conf.cfg.clone() });
                         }
                         variants.push(Cfg { mem: Some((m, 0)), graceful_mem: true, bail_out_handlers: 1, bail_out_payload: Some((String::new(), true)), ..conf.cfg.clone() });
+                        // bail-out handlers registered, but only the OTHER error kind is graceful
+                        variants.push(Cfg { mem: Some((m, 0)), graceful_mem: false, graceful_handler: true, bail_out_handlers: 1, ..conf.cfg.clone() });
                     }
                 }
                 for (vi, cfg) in variants.iter().enumerate() {
